@@ -294,3 +294,21 @@ Proof.
       * apply Hokc. eapply within_step; [exact Hc|]. apply within_child; auto.
 Qed.
 End Complete.
+
+(* with fixes/C20-local-surplus.diff in (true of [deployed]) the proviso about local declarations is gone: the first pass
+   reaches every part of the tree as soon as the assignment targets are names or table accesses (always so in an
+   error-free parse) *)
+Definition targets_ok (root : node) : Prop :=
+  forall n, within children_all root n -> match n with NS (SAssign vars _ _) => Forall var_like vars | _ => True end.
+
+Lemma visited_complete_surplus fx root m :
+  fx_surplus fx = true -> targets_ok root -> within children_all root m -> ~ target_shape m ->
+  within (children_vis fx) root m.
+Proof.
+  intros Hfx Hok. apply visited_complete. intros n Hn. specialize (Hok n Hn).
+  destruct n as [e|s|b]; try exact I. destruct s; try exact I; cbn [node_ok]; auto.
+Qed.
+
+Lemma visited_complete_deployed root m :
+  targets_ok root -> within children_all root m -> ~ target_shape m -> within (children_vis deployed) root m.
+Proof. exact (visited_complete_surplus deployed root m eq_refl). Qed.
